@@ -928,4 +928,12 @@ theorem scalar_none_empty' (c : Char) (it : Item) (kw : List (Char × NsVal)) :
   ⟨denseVals_scalar it, sparseFeats_scalar c it, rfl, rfl,
    fun h => by simp [featsDense, featsSparse, nsVal_absent kw c h, denseVals, sparseFeats_none]⟩
 
+theorem encode_history_eq_spec' (is : List Inter) (calls : List (List (Char × NsVal)))
+    (hne : ∀ t ∈ strTerms is, t ≠ []) :
+    encodeHistory Cfg.fixed is calls = calls.map (fun kw => .ok (encodeS is kw)) := by
+  unfold encodeHistory
+  apply List.map_congr_left
+  intro kw _
+  exact encode_eq_spec' is kw hne
+
 end Coba.C20
